@@ -21,18 +21,21 @@ using vsim::choose;
 
 namespace vfs {
 
-static World g_world;
+// (constructed before ordinary static objects: an engine may call the code under test from a static initialiser)
+#define VFS_EARLY __attribute__((init_priority(101)))
+static World g_world VFS_EARLY;
 World& world() { return g_world; }
 
 constexpr int URANDOM_FD = FD_BASE - 7;
 static int g_urandom_mode = 0;
 static uint64_t g_urandom_seed = 0;
 static uint64_t g_urandom_pos = 0;
-static std::vector<int> g_urandom_script;
+static std::vector<int> g_urandom_script VFS_EARLY;
 static size_t g_urandom_script_pos = 0;
 static bool g_urandom_scripted = false;
 static bool g_urandom_fd0 = false; // /dev/urandom lives at descriptor 0 in this process
 static bool g_urandom_fd0_next = false;
+static void (*g_urandom_read_hook)() = nullptr;
 static int g_urandom_open_failures = 0; // the next opens of /dev/urandom fail with EMFILE (descriptor table full)
 
 struct FakeDir {
@@ -43,7 +46,7 @@ struct FakeDir {
   int owned_fd = -1; // fdopendir(): the directory stream owns this descriptor and closes it in closedir()
   std::string path; // for dirfd(): descriptors relative to this directory
 };
-static std::set<FakeDir*> g_dirs;
+static std::set<FakeDir*> g_dirs VFS_EARLY;
 
 void reset() {
   close_real_pipe_streams();
@@ -66,7 +69,7 @@ struct Feeder {
   size_t fed = 0;
   size_t max_chunk = 1;
 };
-static std::map<int, Feeder> g_feeders; // read end (real descriptor) -> writer state
+static std::map<int, Feeder> g_feeders VFS_EARLY; // read end (real descriptor) -> writer state
 
 static bool tick() {
   World& w = g_world;
@@ -321,6 +324,7 @@ uint64_t urandom_consumed() { return g_urandom_pos; }
 void set_stdio_buffering(size_t mode) { g_world.stdio_buffering = mode; }
 void urandom_open_returns_fd0(bool enable) { g_urandom_fd0_next = enable; }
 void urandom_open_fails(int times) { g_urandom_open_failures = times; }
+void urandom_set_read_hook(void (*h)()) { g_urandom_read_hook = h; }
 
 void set_urandom_script(const std::vector<int>& script) {
   g_urandom_script = script;
@@ -338,7 +342,7 @@ void urandom_set_state(uint64_t pos, size_t script_pos) {
   g_urandom_pos = pos;
   g_urandom_script_pos = script_pos;
 }
-static std::vector<int> g_urandom_script_saved;
+static std::vector<int> g_urandom_script_saved VFS_EARLY;
 static bool g_urandom_script_suspended = false;
 void urandom_script_suspend(bool on) {
   if (on && !g_urandom_script_suspended) {
@@ -554,6 +558,7 @@ static ssize_t do_write(OpenFile& of, const void* buf, size_t n, off_t* explicit
 }
 
 static ssize_t urandom_read(void* buf, size_t n) {
+  if (g_urandom_read_hook) g_urandom_read_hook();
   World& w = g_world;
   Calls& c = w.calls;
   c.reads++;
@@ -1325,6 +1330,21 @@ struct dirent* __wrap_readdir(DIR* dir) {
     strncpy(d->ent.d_name, name.c_str(), sizeof(d->ent.d_name) - 1);
     d->ent.d_ino = 1;
     d->ent.d_type = DT_UNKNOWN;
+    if (g_world.dirent_types_known) {
+      if (name == "." || name == "..") d->ent.d_type = DT_DIR;
+      else {
+        auto it = d->ino->entries.find(name);
+        if (it != d->ino->entries.end()) {
+          switch (it->second->kind) {
+            case Kind::DIR: d->ent.d_type = DT_DIR; break;
+            case Kind::REG: d->ent.d_type = DT_REG; break;
+            case Kind::SYMLINK: d->ent.d_type = DT_LNK; break;
+            case Kind::STREAM: d->ent.d_type = DT_FIFO; break;
+            default: d->ent.d_type = DT_CHR; break;
+          }
+        }
+      }
+    }
     return &d->ent;
   }
   return nullptr;
